@@ -221,6 +221,21 @@ pub fn malformed_catalogue() -> Vec<(String, String)> {
             }
         }
     }
+    // every placement of dots in strings of the three shortest well-formed lengths: all of them
+    // except the well-formed one have some segment that is not four characters long (this
+    // includes several malformed segments whose lengths compensate each other)
+    for total in [4usize, 9, 14] {
+        for mask in 0u32..(1 << total) {
+            let t: String = (0..total).map(|i| if mask & (1 << i) != 0 { '.' } else { (b'A' + (i % 26) as u8) as char }).collect();
+            if t.split('.').all(|seg| seg.len() == 4) {
+                continue;
+            }
+            out.push((t.clone(), "dot-placement".to_string()));
+            if mask % 7 == 0 {
+                out.push((format!("\\{}", t), "dot-placement".to_string()));
+            }
+        }
+    }
     for t in ["", "\\", ".", "..", ".ABCD", "ABCD.", "ABCD..EFGH", "\\.ABCD", "\\ABCD.", "ABC", "ABCDE", "\\ABC", "ABCD.EFG", "ABCD.EFGHI"] {
         out.push((t.to_string(), "degenerate".to_string()));
     }
